@@ -110,3 +110,40 @@ Theorem C03_keeps_up_check :
     Forall (fun x => exists k v, q k (snd x) = Ok v /\ fst x < v) xs -> keeps_up P xs.
 Proof. exact keeps_up_check. Qed.
 Print Assumptions C03_keeps_up_check.
+
+(* ---- a recurring job among other jobs (SchedProj6.v) ---- *)
+From EAS Require Import Base Sched SchedInv SchedApi SchedProj SchedProj2 SchedProj3 SchedProj4 SchedProj5 SchedProj6 ProdEarliest2 Compose2.
+From Coq Require Import Sorted.
+(* ---- C03 ---- *)
+Theorem C03_recurring_job_among_others_follows_reference_loop :
+  forall E k, (forall q t v, prod E k q t = Ok v -> t < v) ->
+  forall fuel hs t0 en key pre ops s rs a1 xs k' t' c',
+    run E fuel hs (init t0 en) (pre ++ OAt key :: ops) = (s, rs) ->
+    ~ In NoFuel rs -> ~ In (Raised EKeyError) rs ->
+    hist_ok true (pre ++ OAt key :: ops) = true ->
+    ncre pre = k -> forallb (fun o => negb (addresses k o)) pre = true -> enf en pre = true ->
+    forallb (foreign k) ops = true ->
+    prod E k 0 (clock t0 pre) = Ok a1 ->
+    ideal (prod E k) 1 (clock t0 pre) a1 (filter quiet ops) = Some (xs, (k', t', c')) ->
+    Compose2.execs k (log s) = xs /\
+    jstatus (jobs s k) = Running /\ jnext (jobs s k) = Some c' /\ now s = t' /\ count_prod k (log s) = k'.
+Proof. exact disturbed_job_exact. Qed.
+Print Assumptions C03_recurring_job_among_others_follows_reference_loop.
+
+Theorem C03_recurring_job_among_others_enumerates :
+  forall E k P fuel hs t0 en key pre ops s rs a1 xs k' t' c',
+    (forall q t v, prod E k q t = Ok v -> earliest_after P t v) ->
+    run E fuel hs (init t0 en) (pre ++ OAt key :: ops) = (s, rs) ->
+    ~ In NoFuel rs -> ~ In (Raised EKeyError) rs ->
+    hist_ok true (pre ++ OAt key :: ops) = true ->
+    ncre pre = k -> forallb (fun o => negb (addresses k o)) pre = true -> enf en pre = true ->
+    forallb (foreign k) ops = true ->
+    prod E k 0 (clock t0 pre) = Ok a1 ->
+    ideal (prod E k) 1 (clock t0 pre) a1 (filter quiet ops) = Some (xs, (k', t', c')) ->
+    Compose2.execs k (log s) = xs /\ jstatus (jobs s k) = Running /\ jnext (jobs s k) = Some c' /\ now s = t' /\
+    StronglySorted Z.lt (map fst xs) /\
+    Forall (fun x => clock t0 pre <= fst x <= t' /\ snd x <= fst x /\ fst x < c') xs /\
+    Forall2 (fun x v => earliest_after P (fst x) v) xs (tl (map snd xs ++ [c'])) /\
+    (keeps_up P xs -> enumerates P (clock t0 pre) (map Ok (map snd xs ++ [c']))).
+Proof. exact disturbed_keepup_enumerates. Qed.
+Print Assumptions C03_recurring_job_among_others_enumerates.
